@@ -53,6 +53,7 @@ def run(ctx: Ctx):
     ctx.attempt(enqueue_time_writers, ctx)
     ctx.attempt(leave_queue, ctx)
     ctx.attempt(head_of_line, ctx)
+    ctx.attempt(first_update_after_grant, ctx)
     ctx.floor("ORD.queue-order", 3)
     ctx.floor("GD.head-of-line", 4)
     ctx.not_decided += ["interleavings with controller instructions that pull a later vehicle out of the queue"]
@@ -270,6 +271,62 @@ def head_of_line(ctx: Ctx):
                   why_bad=f"ChargingStation.enter refuses unless `{txt[:200]}`, but ChargeQueueing.enter admits without it: an admitted vehicle for which it fails is passed over at the "
                           f"head of the queue every step while vehicles that joined later take the plug",
                   construct=f"head-of-line:{txt[:160]}")
+
+
+def first_update_after_grant(ctx: Ctx):
+    """D3 (continued): default_update performs the new activity's `_perform_update` in the very step the plug is granted, and
+    an error there rolls the whole vehicle step back — the grant included. So every vehicle-dependent condition under which
+    `charge()` fails must be an admission condition of the queue, or be ruled out by `ChargingStation._perform_update` before
+    it calls `charge()` (it returns the state unchanged when its own terminal condition — the vehicle is full — already
+    holds). Otherwise the head of the queue is passed over, step after step, by the vehicles behind it."""
+    repo = ctx.repo
+    VO = "nrel/hive/state/vehicle_state/vehicle_state_ops.py"
+    ch = repo.func(VO, "charge")
+    sim, env, vid, sid, cid = ch.params[:5]
+    ren = {sim: "SIM", env: "ENV", vid: "SELF.vehicle_id", sid: "SELF.station_id", cid: "SELF.charger_id"}
+    q_sc = states.state_class(repo, "ChargeQueueing")
+    qren = q_sc.rename(q_sc.enter)
+    qsets = [{(states.ndump(a, qren), pol) for a, pol in m.path.facts()} for m in q_sc.success("enter")]
+    queue = set.intersection(*qsets) if qsets else set()
+    cs = states.state_class(repo, "ChargingStation")
+    pu = repo.method(cs.cls, "_perform_update")
+    tc = repo.method(cs.cls, "_has_reached_terminal_state_condition")
+    pren = cs.rename(pu)
+    # what the charging activity's terminal condition can be true for (normalised return expressions of its value paths)
+    tren = cs.rename(tc)
+    terminal_atoms = set()
+    for p in flow.paths(tc.node):
+        if p.kind == "return" and p.value is not None and not isinstance(p.value, ast.Constant):
+            terminal_atoms.add(states.ndump(p.value, tren))
+    guard = f"SELF._has_reached_terminal_state_condition(SIM, ENV)"
+    charge_paths = [p for p in flow.paths(pu.node) if any(e.name == "charge" and not e.deferred for e in p.events)]
+    ctx.require(len(charge_paths) >= 1, "ChargingStation._perform_update no longer calls charge()")
+    guarded_by_terminal = all(any(states.ndump(a, pren) == guard and pol is False for a, pol in p.facts()) for p in charge_paths)
+    n = 0
+    veh = "SIM.vehicles.get(SELF.vehicle_id)"
+    for p in flow.paths(ch.node):
+        if p.kind != "return" or flow.classify_result(p.value) != "error" or not p.conds:
+            continue
+        last = p.conds[-1]
+        if last.test is None or last.pol not in (True, False):
+            continue
+        for a, pol in flow.implied(last.test, last.pol):
+            d = states.ndump(a, ren)
+            if "SELF.vehicle_id" not in d or any(g in d for g in GRANT_ONLY + ("modify_vehicle(",)):
+                continue  # the result of a commit is not a condition on the vehicle
+            if d.startswith("$isnone(") and any(states.ndump(b, ren) == d[len("$isnone("):-1] for b, _ in flow.implied(last.test, last.pol)):
+                continue
+            n += 1
+            txt = d if pol else f"not ({d})"
+            admitted_without = (d, not pol) not in queue and not (pol is False and (f"$isnone({d})", False) in queue)
+            excluded = guarded_by_terminal and pol is True and d in terminal_atoms
+            ctx.check((not admitted_without) or excluded, "D3", "GD.head-of-line",
+                      f"charge() fails when `{txt[:100]}`: ruled out at admission to the queue or before the first update after the grant", ch, p.end,
+                      why_ok=("admission to the queue requires the opposite" if not admitted_without else "ChargingStation._perform_update returns before charge() when its terminal condition (the same test) holds"),
+                      why_bad=f"a vehicle for which `{txt[:160]}` is admitted to the queue; when it is granted the plug, default_update runs ChargingStation._perform_update at once, charge() "
+                              f"fails, the step (and the grant) is rolled back, and the vehicles that joined later are served while it waits",
+                      construct=f"head-of-line:first-update:{txt[:140]}")
+    ctx.require(n >= 2, f"charge(): only {n} vehicle-dependent failure conditions found")
 
 
 def leave_queue(ctx: Ctx):
